@@ -4,7 +4,7 @@ from ..models import interleaved_ref as ref
 from . import interleaved_common as ic
 
 LEVEL = "model_checking"
-RULE = ("C04/C05 geometries x budgets x config sets x every epoch-boundary checkpoint k>=1 strictly before the budget, "
+RULE = ("C04/C05 geometries x budgets (plus long epoch budgets for small geometries) x config sets x every epoch-boundary checkpoint k>=1 strictly before the budget, "
         "given as start_epoch / start_update / start_sample (values from the model's counters); the resumed real "
         "generator is stepped against the suffix of the uninterrupted reference trace; constructor rejections "
         "(NotImplementedError/AssertionError) are counted separately; distinct = distinct accepted suffix streams")
@@ -12,8 +12,8 @@ RULE = ("C04/C05 geometries x budgets x config sets x every epoch-boundary check
 
 def bounds(tier):
     if tier == "quick":
-        return dict(maxN=7, pair_menu=8)
-    return dict(maxN=10, pair_menu=22)
+        return dict(maxN=7, pair_menu=8, deepN=5, deep_epochs=(5, 7))
+    return dict(maxN=10, pair_menu=22, deepN=8, deep_epochs=(5, 7, 9, 13))
 
 
 def config_sets(b, seed):
@@ -67,8 +67,14 @@ def task(args):
     geo, tier, seed = args
     b = bounds(tier)
     p = Partial()
-    for bud in ic.budgets(geo):
-        for cfgs in config_sets(b, seed):
+    work = [(bud, cfgs) for bud in ic.budgets(geo) for cfgs in config_sets(b, seed)]
+    if geo[0] <= b["deepN"]:
+        # long runs of small geometries: late epoch boundaries (arithmetic coincidences of len, batch_size and epoch
+        # number only show up after several epochs), with no or one side config
+        singles = [s for s in config_sets(b, seed) if len(s) <= 1]
+        work += [(('epochs', e), cfgs) for e in b["deep_epochs"] for cfgs in singles]
+    for bud, cfgs in work:
+        if True:
             model, marks = ref.trace(geo, bud, cfgs, geo[0] * ic.MAIN_DLEN_FACTOR)
             for k in sorted(marks):
                 if marks[k][0] >= len(model):
@@ -95,7 +101,9 @@ def run(run):
     b = bounds(run.tier)
     geos = sorted(ic.geometries(b["maxN"]), key=lambda g: -g[0])
     run.pmap(task, [(g, run.tier, run.seed) for g in geos])
-    run.extra.update(bounds=dict(N=f"1..{b['maxN']}", config_sets=len(config_sets(b, run.seed))), geometries=len(geos))
+    run.extra.update(bounds=dict(N=f"1..{b['maxN']}", config_sets=len(config_sets(b, run.seed)),
+                                 deep_epoch_budgets=f"{list(b['deep_epochs'])} for N<={b['deepN']} (no / one side config)"),
+                     geometries=len(geos))
     run.assumptions += [
         "an explicit NotImplementedError / AssertionError from the constructor is an acceptable answer (counted in counters)",
         "checkpoints are epoch boundaries strictly before the budget, values taken from the reference model's counters",
